@@ -23,9 +23,34 @@ func mineResultFlow(c *Ctx, prefix string, mine, search *ssa.Function, digestPat
 	b := ana.NewBuilder(c.P, mine)
 	pos := c.P.Pos(mine.Pos())
 
-	// 1. the result channel
+	// 1. the result channel: the make(chan) of this call, held in a variable of Mine (a cell when closures capture it,
+	//    a plain value when it is handed to named goroutine functions)
+	var mk *ssa.MakeChan
 	var cell *ssa.Alloc
 	nRecv := 0
+	chanOf := func(t *ana.Term) (*ssa.MakeChan, *ssa.Alloc) {
+		t = stripObj(t)
+		if t.Op == "load" && len(t.Args) == 1 {
+			if a, isCell := stripObj(t.Args[0]).V.(*ssa.Alloc); isCell && a.Parent() == mine {
+				n := 0
+				var m *ssa.MakeChan
+				for _, ref := range *a.Referrers() {
+					if st, ok := ref.(*ssa.Store); ok && st.Addr == ssa.Value(a) {
+						n++
+						m, _ = st.Val.(*ssa.MakeChan)
+					}
+				}
+				if n == 1 && m != nil {
+					return m, a
+				}
+			}
+			return nil, nil
+		}
+		if m, ok := t.V.(*ssa.MakeChan); ok && m.Parent() == mine {
+			return m, nil
+		}
+		return nil, nil
+	}
 	for _, e := range ana.Exits(mine) {
 		if e.Panic || len(e.Results) != 2 || !b.Of(e.Results[1], e.Instr).Is("nil") {
 			continue
@@ -34,48 +59,91 @@ func mineResultFlow(c *Ctx, prefix string, mine, search *ssa.Function, digestPat
 		if vt.C != nil {
 			continue // constant results (the zero-target shortcut) are decided by their own rules
 		}
-		bd, ok := ana.MatchAny(vt, "ext#0(un<<->(load($ch)))", "un<<->(load($ch))")
+		bd, ok := ana.MatchAny(vt, "ext#0(un<<->($ch))", "un<<->($ch)")
 		if !ok {
 			r.Viol(key+".received", c.ipos(e.Instr), "a successful Mine returns something other than a value received from its result channel: %s", short(vt.String(), 200))
 			continue
 		}
-		a, isCell := stripObj(bd["$ch"]).V.(*ssa.Alloc)
-		if !isCell || a.Parent() != mine || (cell != nil && a != cell) {
-			r.Viol(key+".per-call-channel", c.ipos(e.Instr), "the returned nonce is received from %s, which is not a channel variable of this call (a channel on the Worker or in a package variable carries nonces of earlier calls)", short(bd["$ch"].String(), 160))
+		m, a := chanOf(bd["$ch"])
+		if m == nil || (mk != nil && m != mk) {
+			r.Viol(key+".per-call-channel", c.ipos(e.Instr), "the returned nonce is received from %s, which is not a channel made by this call and held in a variable of it assigned once (a channel on the Worker or in a package variable carries nonces of earlier calls)", short(bd["$ch"].String(), 160))
 			continue
 		}
-		cell = a
+		mk, cell = m, a
 		nRecv++
 	}
-	if cell == nil {
+	if mk == nil {
 		r.Check(false, key+".per-call-channel", pos, "no successful exit of Mine receives from a per-call result channel")
 		return
 	}
-	nStore := 0
-	made := false
-	for _, ref := range *cell.Referrers() {
-		if st, ok := ref.(*ssa.Store); ok && st.Addr == ssa.Value(cell) {
-			nStore++
-			_, made = st.Val.(*ssa.MakeChan)
-		}
-	}
-	r.Check(nStore == 1 && made && nRecv >= 1, key+".per-call-channel", c.P.Pos(cell.Pos()), "the result channel is a variable of Mine assigned once, from make(chan) executed by this call (stores %d, receiving exits %d)", nStore, nRecv)
+	r.Check(nRecv >= 1, key+".per-call-channel", c.P.Pos(mk.Pos()), "the result channel is made by this call (make(chan)) and held in a variable of Mine assigned once (receiving exits %d)", nRecv)
 
-	// 2. every use of the channel
+	// 2. every use of the channel, followed into the goroutines it is shared with (captured cell or argument)
 	nSend, bad := 0, 0
-	checkSend := func(fn *ssa.Function, fb *ana.Builder, at ssa.Instruction, v ssa.Value, mc *ssa.MakeClosure) {
+	type ctx struct {
+		fn *ssa.Function
+		fb *ana.Builder
+		mc *ssa.MakeClosure    // the closure literal, when fn is one
+		at ssa.CallInstruction // the call / go statement in Mine that starts a named fn (nil otherwise)
+	}
+	// digestIn: the term, in Mine's vocabulary, of a []byte value v of goroutine body cx.fn
+	digestIn := func(cx ctx, dig *ana.Term) (*ana.Term, bool) {
+		fbd, m := ana.MatchAny(dig, "load($fv)", "slice($fv, 0, none)", "$fv")
+		if !m {
+			return nil, false
+		}
+		switch x := fbd["$fv"].V.(type) {
+		case *ssa.FreeVar:
+			if cx.mc == nil {
+				return nil, false
+			}
+			for i, f := range cx.fn.FreeVars {
+				if f != x {
+					continue
+				}
+				dc, isCell := cx.mc.Bindings[i].(*ssa.Alloc)
+				if !isCell || dc.Parent() != mine {
+					return nil, false
+				}
+				var dt *ana.Term
+				n := 0
+				for _, ref := range *dc.Referrers() {
+					if st, isSt := ref.(*ssa.Store); isSt && st.Addr == ssa.Value(dc) {
+						n++
+						dt = b.Of(st.Val, st)
+					}
+				}
+				return dt, n == 1
+			}
+		case *ssa.Parameter:
+			if cx.at == nil {
+				return nil, false
+			}
+			for i, p := range cx.fn.Params {
+				if p == x && i < len(cx.at.Common().Args) {
+					// the argument in Mine: the digest value, or a full view of the local array holding it
+					at := b.Of(cx.at.Common().Args[i], cx.at)
+					if sb, isSl := ana.Match("slice(obj($arr, store(self, $d)), 0, none)", at); isSl {
+						return sb["$d"], true
+					}
+					return at, true
+				}
+			}
+		}
+		return nil, false
+	}
+	checkSend := func(cx ctx, at ssa.Instruction, v ssa.Value) {
 		nSend++
-		t := fb.Of(v, at)
+		t := cx.fb.Of(v, at)
 		bd, ok := ana.Match("ext#0($call)", t)
 		if !ok || calleeOf(bd["$call"]) != search || len(bd["$call"].Args) < 1 {
 			bad++
 			r.Viol(key+".sent-value", c.ipos(at), "the value sent on the result channel is not the nonce returned by this goroutine's call of %s: %s", search.Name(), short(t.String(), 200))
 			return
 		}
-		// the digest argument (first non-receiver argument) is this call's digest variable
-		args := bd["$call"].Args
+		// the digest argument (first []byte argument) is this call's digest
 		var dig *ana.Term
-		for _, a := range args {
+		for _, a := range bd["$call"].Args {
 			if a.V != nil && a.V.Type().String() == "[]byte" {
 				dig = a
 				break
@@ -85,26 +153,10 @@ func mineResultFlow(c *Ctx, prefix string, mine, search *ssa.Function, digestPat
 		why := "no []byte argument"
 		if dig != nil {
 			why = dig.String()
-			if fbd, m := ana.MatchAny(dig, "load($fv)", "slice($fv, 0, none)"); m {
-				if fv, isFV := fbd["$fv"].V.(*ssa.FreeVar); isFV && mc != nil {
-					for i, f := range fn.FreeVars {
-						if f != fv {
-							continue
-						}
-						if dc, isCell := mc.Bindings[i].(*ssa.Alloc); isCell && dc.Parent() == mine {
-							n := 0
-							for _, ref := range *dc.Referrers() {
-								if st, isSt := ref.(*ssa.Store); isSt && st.Addr == ssa.Value(dc) {
-									n++
-									dt := b.Of(st.Val, st)
-									_, okDig = ana.Match(digestPat, dt)
-									why = dt.String()
-								}
-							}
-							okDig = okDig && n == 1
-						}
-					}
-				}
+			if dt, one := digestIn(cx, dig); dt != nil {
+				_, okDig = ana.Match(digestPat, dt)
+				okDig = okDig && one
+				why = dt.String()
 			}
 		}
 		if !okDig {
@@ -112,36 +164,59 @@ func mineResultFlow(c *Ctx, prefix string, mine, search *ssa.Function, digestPat
 		}
 		r.Check(okDig, key+".digest-arg", c.ipos(at), "the search that produced the sent nonce ran on this call's digest variable, assigned once from the digest of this call's data (%s)", short(why, 160))
 	}
-	useOfChan := func(fn *ssa.Function, fb *ana.Builder, ld *ssa.UnOp, mc *ssa.MakeClosure) {
-		for _, u := range *ld.Referrers() {
+	var uses func(cx ctx, v ssa.Value, depth int)
+	uses = func(cx ctx, v ssa.Value, depth int) {
+		for _, u := range *v.Referrers() {
 			switch x := u.(type) {
 			case *ssa.UnOp:
-				if x.Op == token.ARROW && fn == mine {
+				if x.Op == token.ARROW && cx.fn == mine {
 					continue
 				}
 				bad++
 				r.Viol(key+".channel-uses", c.ipos(x), "the result channel is received from inside a goroutine of Mine")
 			case *ssa.Send:
-				if x.Chan == ssa.Value(ld) {
-					checkSend(fn, fb, x, x.X, mc)
+				if x.Chan == v {
+					checkSend(cx, x, x.X)
 				}
 			case *ssa.Select:
 				for _, st := range x.States {
-					if st.Chan == ssa.Value(ld) {
+					if st.Chan == v {
 						if st.Send != nil {
-							checkSend(fn, fb, x, st.Send, mc)
-						} else if fn != mine {
+							checkSend(cx, x, st.Send)
+						} else if cx.fn != mine {
 							bad++
 							r.Viol(key+".channel-uses", c.ipos(x), "the result channel is received from inside a goroutine of Mine")
 						}
 					}
 				}
-			case *ssa.Call:
-				if bi, ok := x.Call.Value.(*ssa.Builtin); ok && (bi.Name() == "close" || bi.Name() == "len" || bi.Name() == "cap") {
-					continue
+			case *ssa.ChangeType: // chan T -> chan<- T for a parameter
+				uses(cx, x, depth)
+			case *ssa.Store:
+				if cell != nil && x.Addr == ssa.Value(cell) && cx.fn == mine {
+					continue // the one assignment of the variable
 				}
 				bad++
-				r.Viol(key+".channel-uses", c.ipos(x), "the result channel is handed to %s", ana.CalleeName(x.Common()))
+				r.Viol(key+".channel-uses", c.ipos(x), "the result channel is stored somewhere else")
+			case ssa.CallInstruction:
+				cc := x.Common()
+				if bi, ok := cc.Value.(*ssa.Builtin); ok && (bi.Name() == "close" || bi.Name() == "len" || bi.Name() == "cap") && cx.fn == mine {
+					continue
+				}
+				// handed to a named repository function (a goroutine body, or a helper of one): follow the parameter
+				if cal := ana.StaticRepoCallee(cc); cal != nil && cal.Blocks != nil && depth < 2 && cx.fn == mine {
+					followed := false
+					for i, a := range cc.Args {
+						if a == v && i < len(cal.Params) {
+							uses(ctx{fn: cal, fb: ana.NewBuilder(c.P, cal), at: x}, cal.Params[i], depth+1)
+							followed = true
+						}
+					}
+					if followed {
+						continue
+					}
+				}
+				bad++
+				r.Viol(key+".channel-uses", c.ipos(x), "the result channel is handed to %s", ana.CalleeName(cc))
 			case *ssa.DebugRef:
 			default:
 				bad++
@@ -149,30 +224,34 @@ func mineResultFlow(c *Ctx, prefix string, mine, search *ssa.Function, digestPat
 			}
 		}
 	}
-	for _, ref := range *cell.Referrers() {
-		switch x := ref.(type) {
-		case *ssa.Store, *ssa.DebugRef:
-		case *ssa.UnOp:
-			useOfChan(mine, b, x, nil)
-		case *ssa.MakeClosure:
-			cl := x.Fn.(*ssa.Function)
-			cb := ana.NewBuilder(c.P, cl)
-			for i, bd := range x.Bindings {
-				if bd != ssa.Value(cell) {
-					continue
-				}
-				for _, u := range *cl.FreeVars[i].Referrers() {
-					if ld, ok := u.(*ssa.UnOp); ok && ld.Op == token.MUL {
-						useOfChan(cl, cb, ld, x)
-					} else if _, isDbg := u.(*ssa.DebugRef); !isDbg {
-						bad++
-						r.Viol(key+".channel-uses", c.ipos(u), "the result channel variable is written or re-captured inside a goroutine: %s", u.String())
+	mineCx := ctx{fn: mine, fb: b}
+	uses(mineCx, mk, 0)
+	if cell != nil {
+		for _, ref := range *cell.Referrers() {
+			switch x := ref.(type) {
+			case *ssa.Store, *ssa.DebugRef:
+			case *ssa.UnOp:
+				uses(mineCx, x, 0)
+			case *ssa.MakeClosure:
+				cl := x.Fn.(*ssa.Function)
+				cx := ctx{fn: cl, fb: ana.NewBuilder(c.P, cl), mc: x}
+				for i, bd := range x.Bindings {
+					if bd != ssa.Value(cell) {
+						continue
+					}
+					for _, u := range *cl.FreeVars[i].Referrers() {
+						if ld, ok := u.(*ssa.UnOp); ok && ld.Op == token.MUL {
+							uses(cx, ld, 1)
+						} else if _, isDbg := u.(*ssa.DebugRef); !isDbg {
+							bad++
+							r.Viol(key+".channel-uses", c.ipos(u), "the result channel variable is written or re-captured inside a goroutine: %s", u.String())
+						}
 					}
 				}
+			default:
+				bad++
+				r.Viol(key+".channel-uses", c.ipos(ref), "the result channel variable escapes: %s", ref.String())
 			}
-		default:
-			bad++
-			r.Viol(key+".channel-uses", c.ipos(ref), "the result channel variable escapes: %s", ref.String())
 		}
 	}
 	r.Check(nSend >= 1 && bad == 0, key+".channel-uses", pos, "the result channel is only closed / measured / received from by Mine and sent to by Mine's goroutines; send sites %d, each sending the nonce its own search returned", nSend)
